@@ -179,6 +179,7 @@ type vprofile struct {
 	maxUs    int                // upper bound of that sleep
 	delayUs  map[string]int     // fixed extra delay (microseconds, randomised 50%..150%) at named points
 	delayTgt map[string]float64 // probability of the fixed delay (default 1)
+	meet     bool               // rendezvous: a dependent about to wait for d and d about to finish are released together
 }
 
 var vprofiles = []vprofile{
@@ -192,6 +193,10 @@ var vprofiles = []vprofile{
 	{name: "stagger", gosched: 0.3, sleep: 0.3, maxUs: 200, delayUs: map[string]int{"run.entered": 100, "run.loaded": 100}},
 	{name: "half_late_publish", gosched: 0.3, delayUs: map[string]int{"publish.pre": 300, "walk.pre": 150},
 		delayTgt: map[string]float64{"publish.pre": 0.5, "walk.pre": 0.5}},
+	// the window between a dependent's look at a dependency's status and its wait has no hook inside; to put a finish into it
+	// the two goroutines are lined up at the hooks just before (wait.begin of the dependent, body.end of the dependency) and
+	// then let go with a random offset of less than two microseconds
+	{name: "rendezvous", meet: true},
 }
 
 type vlog struct {
@@ -207,6 +212,7 @@ type vlog struct {
 
 	mainGid  atomic.Int64 // the goroutine that calls Run
 	ctlAt    func(string, ...any)
+	meetings sync.Map // label -> *vmeeting (profile rendezvous)
 	ctlStats [3]int   // controlled runs: releases, runtime snapshots taken, snapshots that showed the build not settled
 	policy   string   // "" = free-running with jitter; otherwise the policy of the controlled scheduler (zz_verif_c05_ctl_test.go)
 	schedule []string // controlled runs: the goroutines released, in order ("label@hook point")
@@ -275,12 +281,46 @@ func vcopyArgs(args []any) []any {
 // inside a critical section of the runner (t.m or g.m): never sleep there
 var vInsideCS = map[string]bool{"start.run": true, "start.noop": true, "run.finished": true, "gate.enter": true, "gate.exit": true}
 
+type vmeeting struct{ dependents, finishers atomic.Int32 }
+
+func (v *vlog) rendezvous(point string, args []any) {
+	var key string
+	var mine, other *atomic.Int32
+	var patience time.Duration
+	switch point {
+	case "wait.begin":
+		key, _ = args[1].(string)
+	case "body.end":
+		key, _ = args[0].(string)
+	default:
+		return
+	}
+	mv, _ := v.meetings.LoadOrStore(key, &vmeeting{})
+	m := mv.(*vmeeting)
+	if point == "wait.begin" {
+		mine, other, patience = &m.dependents, &m.finishers, 400*time.Microsecond
+	} else {
+		mine, other, patience = &m.finishers, &m.dependents, 100*time.Microsecond
+	}
+	mine.Add(1)
+	for t0 := time.Now(); other.Load() == 0 && time.Since(t0) < patience; {
+		runtime.Gosched()
+	}
+	// random offset, from a range that is itself random (the width of the window aimed at is unknown)
+	span := []uint64{300, 1000, 3000}[v.rnd()%3]
+	for t0, d := time.Now(), time.Duration(v.rnd()%span); time.Since(t0) < d; {
+	}
+}
+
 func (v *vlog) at(point string, args ...any) {
 	if v.ctlAt != nil { // controlled scheduler: the fake target's own events are logged (and parked) like the runner's hooks
 		v.ctlAt(point, args...)
 		return
 	}
 	gid := vgid()
+	if v.prof != nil && v.prof.meet {
+		v.rendezvous(point, args)
+	}
 	switch point {
 	case "publish.pre", "walk.pre", "clear.pre":
 		v.jitter(point)
@@ -934,7 +974,7 @@ func TestVerifRunner(t *testing.T) {
 	for i := 0; i < stress; i++ {
 		g := byName[stressGraphs[i%len(stressGraphs)]]
 		id++
-		runs = append(runs, &vrun{id: id, g: g, k: []int{16, 4, 2}[i%3], profile: []int{0, 1, 0, 7}[i%4], procs: 16, seed: rng.Uint64()})
+		runs = append(runs, &vrun{id: id, g: g, k: []int{16, 4, 2}[i%3], profile: []int{0, 1, 9, 7}[i%4], procs: 16, seed: rng.Uint64()})
 	}
 	// extra graph families contributed by a property's own harness file (nil when that file is not part of the build)
 	if vextraGraphs != nil {
